@@ -1,7 +1,7 @@
 import StepModel.Lazy
 /-! Line-protocol driver for the `Lazy` model (C10).
   `scan <hex of the bytes after DATA;>`           → `COUNT n|SECTION ok/bad|KW kw ids..|FWD id refs..|REV id ids..|DEP id ids..`
-  `load <hex> id id ...`                          → `LOAD id 0/1 n|...|CACHE id:r=b,r=b ...`  (n = cache size after the call)
+  `load <inv> <hex> id id ...`  (inv = `KW:KW1,KW2;...` candidate-referrer keywords per keyword, or `-`)                          → `LOAD id 0/1 n|...|CACHE id:r=b,r=b ...`  (n = cache size after the call)
   anything else → `bad-op`. -/
 open StepModel.Lazy StepModel.Generated
 
@@ -55,18 +55,28 @@ def showObj (o : Obj) : String :=
   | none => s!"{o.id}:?"
   | some r => s!"{o.id}:" ++ String.intercalate "," (r.map (fun p => s!"{p.1}={if p.2 then 1 else 0}"))
 
-def loadReply (bytes : List Char) (ids : List Nat) : String :=
+/-- `inv` table of the request: `KW:KW1,KW2;KW:KW3` (keywords whose instances are candidate referrers of an instance of `KW`), `-` = none -/
+def parseInv (t : String) : List Char → List (List Char) :=
+  if t == "-" then fun _ => [] else
+  let rows := (t.splitOn ";").filterMap (fun r =>
+    match r.splitOn ":" with
+    | [k, vs] => some (k.toList, (vs.splitOn ",").map String.toList)
+    | _ => none)
+  fun k => match rows.find? (fun r => r.1 == k) with | some r => r.2 | none => []
+
+def loadReply (inv : List Char → List (List Char)) (bytes : List Char) (ids : List Nat) : String :=
   match scan bytes with
   | .ok (es, _) =>
     let fuel := es.length + 2
-    let rec go (c : Cache) (l : List Nat) (acc : List String) : List String × Option Cache :=
+    let cands := candsOf es inv
+    let rec go (st : TopState) (l : List Nat) (acc : List String) : List String × Option Cache :=
       match l with
-      | [] => (acc.reverse, some c)
+      | [] => (acc.reverse, some st.1)
       | id :: t =>
-        match load cacheBeforeRead es fuel c id with
-        | .ok (c1, b) => go c1 t (s!"LOAD {id} {if b then 1 else 0} {c1.length}" :: acc)
+        match loadTop es cands (fun l => l) fuel st id with
+        | .ok (st1, b) => go st1 t (s!"LOAD {id} {if b then 1 else 0} {st1.1.length}" :: acc)
         | o => ((s!"LOAD {id} {outcomeTag o}" :: acc).reverse, none)
-    let (lines, c) := go [] ids []
+    let (lines, c) := go ([], []) ids []
     match c with
     | some c => String.intercalate "|" (lines ++ ["CACHE " ++ String.intercalate " " (c.map showObj)])
     | none => String.intercalate "|" lines
@@ -75,9 +85,9 @@ def loadReply (bytes : List Char) (ids : List Nat) : String :=
 def handle (line : String) : String :=
   match (line.trimAscii.toString.splitOn " ").filter (· ≠ "") with
   | ["scan", h] => match unhex h.toList with | some b => scanReply b | none => "bad-op"
-  | "load" :: h :: ids =>
+  | "load" :: iv :: h :: ids =>
     match unhex h.toList, ids.mapM String.toNat? with
-    | some b, some ids => loadReply b ids
+    | some b, some ids => loadReply (parseInv iv) b ids
     | _, _ => "bad-op"
   | [] => ""
   | _ => "bad-op"
